@@ -384,7 +384,7 @@ Qed.
 (* an evicted entry that is not already clean in the secondary cache is handed to the worker and
    stays readable in the map until the worker has dealt with it (queue not full) *)
 Lemma eviction_hands_off s id now e :
-  get_ent s id = Some e -> hyb s = true -> f_nvm e = false -> Z.of_nat (length (hand s)) < 256 ->
+  get_ent s id = Some e -> hyb s = true -> f_nvm e && negb (f_dirty e) = false -> Z.of_nat (length (hand s)) < 256 ->
   let s' := fst (removeEntry s id reasonEVICTED now) in
   hand s' = hand s ++ [id] /\ smap s' = smap s /\ snd (removeEntry s id reasonEVICTED now) = [].
 Proof.
@@ -399,4 +399,34 @@ Proof.
   change (reasonEVICTED =? reasonREMOVED) with false. change (reasonEVICTED =? reasonEVICTED) with true.
   rewrite Y3, Hn, H3. destruct (Z.ltb_spec (Z.of_nat (length (hand s))) 256); [|lia].
   cbn [andb negb fst snd]. unfold set_hand. cbn [hand smap]. split; [congruence|]. split; [exact M3|reflexivity].
+Qed.
+
+
+(* ---------- an overwritten promoted value is marked at once, and stays marked (C15) ---------- *)
+(* the in-place overwrite by a user write sets the mark inside the same shard section, before any
+   policy event of that write exists *)
+Lemma overwrite_marks_dirty s k v cost expire now h dk id e :
+  sclosed s = false -> map_get (smap s) k = Some id -> get_ent s id = Some e ->
+  exists e', get_ent (fst (fst (set_section s k v cost expire now h dk false))) id = Some e' /\
+             f_dirty e' = true /\ sval e' = v /\ sweight e' = cost.
+Proof.
+  intros Hc Hm Hg. unfold set_section. rewrite Hc, Hm, Hg.
+  destruct (updateExpire (sexpire e) expire now) as [ex rs]. cbn [fst].
+  rewrite get_ent_si. rewrite get_ent_upd by (intro; reflexivity). rewrite Hg, (get_ent_sid s id e Hg), Z.eqb_refl.
+  eexists. split; [reflexivity|]. cbn. rewrite orb_true_r. repeat split.
+Qed.
+
+(* no step ever clears the mark of an existing entry object *)
+Definition dirty_kept (s s' : store) : Prop :=
+  forall id e, get_ent s id = Some e -> f_dirty e = true -> exists e', get_ent s' id = Some e' /\ f_dirty e' = true.
+
+Lemma dirty_kept_refl s : dirty_kept s s.
+Proof. intros id e G D. exists e. auto. Qed.
+Lemma dirty_kept_trans a b c : dirty_kept a b -> dirty_kept b c -> dirty_kept a c.
+Proof. intros H1 H2 id e G D. destruct (H1 id e G D) as (e1 & G1 & D1). exact (H2 id e1 G1 D1). Qed.
+
+Lemma dirty_kept_upd s id f : (forall e, sid (f e) = sid e) -> (forall e, f_dirty e = true -> f_dirty (f e) = true) -> dirty_kept s (upd_ent s id f).
+Proof.
+  intros Hs Hf i e G D. rewrite get_ent_upd by exact Hs. rewrite G. eexists. split; [reflexivity|].
+  destruct (sid e =? id); [apply Hf, D|exact D].
 Qed.
